@@ -17,7 +17,7 @@ INFO = {
              "identity on valid names, idempotence, one underscore per offending rune) for every key of up to 3 (quick) / 5 "
              "(thorough) symbols over a 15-symbol alphabet incl. multi-byte and invalid UTF-8; the same keys plus seeded "
              "random keys are run through otelstorage.KeyToLabel and every observed result is validated by TLC against "
-             "the specification (Trace_Sanitize).",
+             "the specification (Trace_Sanitize)."
              " Each key is also put on a container of the fake daemon as a Docker label and the container must be the one selected by "
              "{sanitised(key)=\"v\"} through the Docker-backed storage.",
         note="Trusts the transcription of Go's UTF-8 range decoding (Utf8.tla) and TLC; bounded alphabet/length + random longer keys; empty key left open.",
@@ -29,7 +29,7 @@ INFO = {
              "(frames, fault) pair is replayed through dockerlog.ParseLog and through Engine.Eval (log query and range aggregation) "
              "with 5 read-size patterns, plus seeded random streams, and each recorded execution is validated by TLC "
              "(Trace_Decoder): records byte- and nanosecond-exact, in order, prefix up to the fault, error iff the fault is an "
-             "error kind, and the error stays reported when the iterator is polled again.",
+             "error kind, and the error stays reported when the iterator is polled again."
              " Every case is also run with a second, healthy container selected beside the observed one (its failure is still the query's failure).",
         note="Trusts time.Format for RFC3339Nano text, the fake daemon's transport, TLC; bounded frames + random larger streams.",
         ref="6/C03"),
